@@ -346,7 +346,8 @@ def expand_item(repo, relfile, selector, body, tmpl_name, tmpl_line, opts):
             if hdr and not _norm(src[s:b]).startswith(_norm(hdr)):
                 raise LostAnchor("%s: loop %d header is `%s`, expected `%s`" % (selector, n, _norm(src[s:b]), hdr))
             add(b, b, "\n" + text + "\n", origin_nl, None)
-            if itname and itname.startswith("index:"):
+            if itname and (itname.startswith("index:") or itname.startswith("ownedindex:")):
+                owned_elem = itname.startswith("ownedindex:")
                 # T8b: `for X in E {` (E an owned Vec)  ->  `let __seq_i = E; for i in 0..__seq_i.len() { let X = &__seq_i[i];`
                 iv = itname.split(":", 1)[1]
                 mh = re.match(r"for\s+([A-Za-z_][A-Za-z0-9_]*)\s+in\s+(.*?)\s*$", src[s:b], re.S)
@@ -363,7 +364,9 @@ def expand_item(repo, relfile, selector, body, tmpl_name, tmpl_line, opts):
                 else:
                     add(s, b, "let __seq_%s = %s; for %s in 0..__seq_%s.len() " % (iv, _norm(e_), iv, iv),
                         ("repo", relfile, line_of(src, s)), "T8b", "`for %s in <owned Vec>` -> index loop over a borrowed element" % x_)
-                    add(b + 1, b + 1, " let %s = &__seq_%s[%s];" % (x_, iv, iv), ("repo", relfile, line_of(src, s)), None)
+                    # (`owned`: the loop variable is used by value - the element is cloned, as the consuming loop moved it)
+                    add(b + 1, b + 1, (" let %s = __seq_%s[%s].clone();" if owned_elem else " let %s = &__seq_%s[%s];") % (x_, iv, iv),
+                        ("repo", relfile, line_of(src, s)), None)
             elif itname:
                 # T7i: name the ghost iterator of a for loop:  `for x in E {`  ->  `for x in <name>: E {`
                 mi = re.search(r"\bin\s+", m[s:b])
@@ -431,6 +434,19 @@ def expand_item(repo, relfile, selector, body, tmpl_name, tmpl_line, opts):
                 pos0 = k + len(chead)
         elif d in ("keep-pub", "derived-ord"):
             pass
+        elif d == "replace-stmt":
+            # T14: one statement (named by the start of its text) is replaced by a call of a function with an ASSUMED
+            # contract - for iterator chains outside the verifier's reach in the middle of an otherwise verified
+            # function.  The statement itself is then not verified; the rest of the function is.
+            if fp is None:
+                raise LostAnchor("%s: replace-stmt on non-fn" % selector)
+            prefix, repl = arg
+            pos = _anchor(src, m, fp, prefix, "before", selector)
+            end = rs.statement_end(m, pos, fp.body_close)
+            add(pos, end, repl, ("repo", relfile, line_of(src, pos)), "T14",
+                "statement `%s ..` (lines %d-%d) replaced by `%s` (assumed contract; the statement is not verified)"
+                % (prefix, line_of(src, pos), line_of(src, end - 1), repl))
+            out.trusted.append("T14: %s:%d-%d statement `%s ..` replaced by `%s`" % (relfile, line_of(src, pos), line_of(src, end - 1), prefix, repl))
         elif d == "attr":
             # a verifier attribute in front of the item (specification only)
             add(it.head, it.head, arg + "\n", origin, None)
@@ -669,9 +685,11 @@ def parse_template(path):
                         cur = (d2, None, [], i + 1)
                         body.append(cur)
                     elif d2 == "loop":
+                        owned = bool(re.search(r"\s+owned\s*$", a2))
+                        a2 = re.sub(r"\s+owned\s*$", "", a2)
                         t = re.match(r"(\d+)\s*(?:`(.*)`)?\s*(?:(?:iter|index)=(\w+))?\s*$", a2)
                         if t and "index=" in a2 and t.group(3):
-                            cur = (d2, (int(t.group(1)), t.group(2), "index:" + t.group(3)), [], i + 1)
+                            cur = (d2, (int(t.group(1)), t.group(2), ("ownedindex:" if owned else "index:") + t.group(3)), [], i + 1)
                             body.append(cur)
                             i += 1
                             continue
@@ -691,6 +709,12 @@ def parse_template(path):
                         cur = None
                     elif d2 == "attr":
                         body.append((d2, a2, [], i + 1))
+                        cur = None
+                    elif d2 == "replace-stmt":
+                        t = re.match(r"`(.*)`\s*=>\s*`(.*)`\s*$", a2)
+                        if not t:
+                            raise LostAnchor("%s:%d: replace-stmt directive needs `statement prefix` => `replacement statement`" % (path, i + 1))
+                        body.append((d2, (t.group(1), t.group(2)), [], i + 1))
                         cur = None
                     elif d2 == "derived-ord":
                         body.append((d2, None, [], i + 1))
